@@ -55,6 +55,13 @@ func c09Run(c *mc.Ctx) {
 			readerBFS(c, "C09", ReaderCfg{Kind: "default", DLen: 3<<20 + 11, Env: EnvCfg{Chunk: 1<<20 + 7}, Sizes: []int{5, 1<<20 + 1, 1 << 21}, Retain: true, CoTenant: cot, NoNeg: true}, 3, 0)
 		}
 		if c.Mine() {
+			// a 128 KiB caller buffer (power of two) of which only a little is left unread at Release
+			readerBFS(c, "C09", ReaderCfg{Kind: "bytes", DLen: 1 << 17, SpareCap: 0, Sizes: []int{100, 1<<17 - 4096, 1<<17 - 100, 4096}, Retain: true, CoTenant: cot, NoNeg: true}, 3, 0)
+		}
+		if c.Mine() {
+			readerBFS(c, "C09", ReaderCfg{Kind: "default", DLen: 1<<17 + 50, Env: EnvCfg{Chunk: 1 << 16}, Sizes: []int{100, 1<<17 - 4096, 1<<17 - 100, 4096}, Retain: true, CoTenant: cot, NoNeg: true}, 3, 0)
+		}
+		if c.Mine() {
 			readerBFS(c, "C09", ReaderCfg{Kind: "bytes", DLen: 1 << 21, SpareCap: 0, Sizes: []int{5, 1<<20 + 1, 1 << 21}, Retain: true, CoTenant: cot, NoNeg: true}, 3, 0)
 		}
 		if c.Mine() {
